@@ -19,6 +19,7 @@ use std::path::{Path, PathBuf};
 
 use crate::frontend::ast::{Declaration, ImportKind, Program};
 use crate::frontend::diagnostics::CompileError;
+use crate::frontend::module::{absolute_path, display_path};
 use crate::frontend::{diagnostics, lexer, parser};
 
 /// A resolved module with its parsed AST
@@ -87,8 +88,11 @@ impl std::error::Error for ResolveError {}
 /// Handles discovering imports and building the dependency graph.
 #[derive(Debug, Default)]
 pub struct ModuleResolver {
-    /// Processed file paths (to avoid cycles)
-    processed: HashSet<String>,
+    /// Processed files by absolute path (to avoid cycles)
+    processed: HashSet<PathBuf>,
+    /// Current directory when the entry file was given as a relative path (dependencies are then reported
+    /// relative to it as well)
+    cwd: Option<PathBuf>,
 }
 
 impl ModuleResolver {
@@ -96,6 +100,7 @@ impl ModuleResolver {
     pub fn new() -> Self {
         Self {
             processed: HashSet::new(),
+            cwd: None,
         }
     }
     /// Resolve all modules starting from an entry file
@@ -124,7 +129,14 @@ impl ModuleResolver {
         self.processed.clear();
 
         let path = Path::new(entry_path);
-        let base_dir = path.parent().unwrap_or(Path::new("."));
+        // Resolve imports against the absolute directory of the entry file (see `absolute_path`).
+        let absolute_entry = absolute_path(path);
+        let base_dir = absolute_entry.parent().unwrap_or(Path::new("."));
+        self.cwd = if path.is_absolute() {
+            None
+        } else {
+            std::env::current_dir().ok()
+        };
 
         let mut modules = Vec::new();
         // (file_path, module_name, path_segments)
@@ -132,10 +144,9 @@ impl ModuleResolver {
             vec![(entry_path.to_string(), "main".to_string(), vec!["main".to_string()])];
 
         while let Some((file_path, module_name, path_segments)) = to_process.pop() {
-            if self.processed.contains(&file_path) {
+            if !self.processed.insert(absolute_path(Path::new(&file_path))) {
                 continue;
             }
-            self.processed.insert(file_path.clone());
 
             let source = self.read_source(&file_path)?;
             let tokens = lexer::lex(&source).map_err(|errors| ResolveError::Lexer {
@@ -154,7 +165,7 @@ impl ModuleResolver {
             for decl in &ast.declarations {
                 if let Declaration::Import(import) = &decl.node {
                     if let Some(dep_info) = self.resolve_import(&import.kind, base_dir) {
-                        if !self.processed.contains(&dep_info.0) {
+                        if !self.processed.contains(&absolute_path(Path::new(&dep_info.0))) {
                             to_process.push(dep_info);
                         }
                     }
@@ -241,7 +252,11 @@ impl ModuleResolver {
         let found_path = self.find_module_file(&dep_path, &target_dir, &module_segments)?;
 
         let module_name = module_segments.join("_");
-        Some((found_path.to_string_lossy().to_string(), module_name, module_segments))
+        Some((
+            display_path(&found_path, self.cwd.as_deref()),
+            module_name,
+            module_segments,
+        ))
     }
 
     fn find_module_file(&self, primary_path: &Path, target_dir: &Path, segments: &[String]) -> Option<PathBuf> {
